@@ -94,9 +94,14 @@ func scanTree(root string) []TEntry {
 	return out
 }
 
-var dirNames = []string{"etc", "usr", "opt", "var", "conf.d", "lib64", "a b", "d'q", "x*d", "é", ".cfg"}
+var dirNames = []string{"etc", "usr", "opt", "var", "conf.d", "lib64", "a b", "d'q", "x*d", "é", ".cfg", "d\xc3\xa0", "\xc3\x85ngstr\xc3\xb6m"}
 var fileNames = []string{"aa", "ab", "abc", "b", "ba", "c.conf", "d.conf", "x*y", "*", "a*", "q'r", `q"r`, "a b", "é", ".hidden",
-	"%s", "k=v", "-", "#c", "~", ",", "file", "omit", "  sp", "tab\tx", "z"}
+	"%s", "k=v", "-", "#c", "~", ",", "file", "omit", "  sp", "tab\tx", "z",
+	"voil\xc3\xa0", "voil\xc3\xa0.txt", "\xc3\x85", "a\xa0b", "x\x85", "v\vt", "f\ff", "c\rr"}
+
+// names with bytes that a Unicode/ctype white-space test would take for separators (see gen_line.go spaceLike);
+// none ends in an ASCII white-space byte (the line reader's TrimSpace would take that off a bare name)
+var spaceLikeFiles = []string{"voil\xc3\xa0", "voil\xc3\xa0.txt", "\xc3\x85ngstr\xc3\xb6m", "a\xa0b", "x\x85", "\x85x", "v\vt", "f\ff", "c\rr", "\xa0"}
 
 func genTree(r *rng.R) []TEntry {
 	var tree []TEntry
@@ -344,6 +349,43 @@ func genList(r *rng.R) Input {
 		init = append(init, B("/etc/not-there"))
 	}
 	items, lines := genListScript(r, tree, &known)
+	if r.Chance(1, 2) { // a name with a space look-alike byte: in the tree, mostly in the list, added / omitted plainly and by wildcard
+		d := string(tree[0].Path)
+		name := r.Pick(spaceLikeFiles)
+		p := d + "/" + name
+		dup := false
+		for _, e := range tree {
+			if string(e.Path) == p {
+				dup = true
+			}
+		}
+		if !dup {
+			tree = append(tree, TEntry{Path: B(p), Kind: 2})
+		}
+		if r.Chance(2, 3) {
+			init = append(init, B(p))
+		}
+		var fl []SField
+		style := r.Intn(3)
+		switch r.Intn(5) {
+		case 0:
+			fl = []SField{{"", QBare, lit("omit")}, {" ", style, pathToks(p)}}
+		case 1:
+			fl = []SField{{"", QBare, lit(r.Pick([]string{"file", "tbd"}))}, {" ", style, pathToks(p)}}
+		case 2:
+			k := r.Intn(len(name) + 1)
+			fl = []SField{{"", QBare, lit("omit")}, {" ", style, append(pathToks(d+"/"+name[:k]), Tok{TStar, 0})}}
+		case 3:
+			k := r.Intn(len(name) + 1)
+			fl = []SField{{"", QBare, lit("file")}, {" ", style, append(append(pathToks(d+"/"), Tok{TStar, 0}), pathToks(name[k:])...)}}
+		default:
+			fl = []SField{{"", QBare, lit("file")}, {" ", style, pathToks(p)}, {" ", QBare, lit("absent=skip")}}
+		}
+		at := r.Intn(len(lines) + 1)
+		it := itemJ{Fields: toJ(fl)}
+		items = append(items[:at:at], append([]itemJ{it}, items[at:]...)...)
+		lines = append(lines[:at:at], append([]string{RenderLine(fl, "")}, lines[at:]...)...)
+	}
 	li := &ListInput{Tree: tree, Init: init, HasItems: true, Items: items, Lines: common.Bs(lines), CRLF: r.Chance(1, 10)}
 	if r.Chance(1, 8) { // raw script: structured lines damaged
 		li.HasItems = false
@@ -488,7 +530,8 @@ var skeletonFiles = []string{"etc/csh.env", "etc/env.d/00basic", "etc/fstab", "e
 	"usr/local/x", "usr/share/binutils-data/x", "usr/share/gcc-data/x", "usr/share/info/dir", "var/cache/x",
 	"var/lib/gentoo/x", "var/lib/portage/world",
 	// extras for the user lists
-	"opt/app/aa", "opt/app/ab", "opt/app/b", "opt/app/x*y", "opt/app/sub/c", "opt/app/sub/d d", "etc/portage/package.use"}
+	"opt/app/aa", "opt/app/ab", "opt/app/b", "opt/app/x*y", "opt/app/sub/c", "opt/app/sub/d d", "etc/portage/package.use",
+	"opt/app/voil\xc3\xa0.txt", "opt/app/a\xa0b", "opt/app/v\vt"}
 
 var procRoot string
 var procTree []TEntry
